@@ -286,7 +286,8 @@ impl TokioChildWrapper for SimChild {
         });
         if fail {
             log(Ev::KillFail { child: id });
-            return Err(Error::new(ErrorKind::PermissionDenied, format!("sim: kill of child {id} fails")));
+            // (a real errno, as the kernel would give: EPERM or ESRCH, a function of the child's number)
+            return Err(Error::from_raw_os_error(if id % 2 == 0 { 1 } else { 3 }));
         }
         log(Ev::Kill { child: id });
         let notify = with_run(|r| {
@@ -347,7 +348,7 @@ impl TokioChildWrapper for SimChild {
             });
             if fail {
                 log(Ev::WaitFail { child: id });
-                return Err(Error::new(ErrorKind::Other, format!("sim: wait on child {id} fails")));
+                return Err(Error::from_raw_os_error(if id % 2 == 0 { 10 } else { 4 }));
             }
             loop {
                 let now = now_ms();
@@ -370,7 +371,7 @@ impl TokioChildWrapper for SimChild {
                             r.world.faults.wait_fail += 1;
                         });
                         log(Ev::WaitFail { child: id });
-                        return Err(Error::new(ErrorKind::Other, format!("sim: wait on child {id} fails late")));
+                        return Err(Error::from_raw_os_error(if id % 2 == 0 { 4 } else { 10 }));
                     }
                 }
                 let late_sleep = late.filter(|at| *at > now).map(|at| start + ms(at));
@@ -433,7 +434,7 @@ impl TokioChildWrapper for SimChild {
         });
         if fail {
             log(Ev::SignalFail { child: id, sig });
-            return Err(Error::new(ErrorKind::PermissionDenied, format!("sim: signal {sig} to child {id} fails")));
+            return Err(Error::from_raw_os_error(if id % 2 == 0 { 3 } else { 1 }));
         }
         log(Ev::Signal { child: id, sig, delivered: !dead });
         if dead {
